@@ -60,6 +60,9 @@ def unescape(t):
     return out
 
 
+DOC_NEWLINES = {"\n", "\r", "\x0b", "\x0c", "\u0085", "\u2028", "\u2029"}
+
+
 def body_literals(b):
     lits = []
     for _, bl, s in assigns(b):
@@ -90,6 +93,116 @@ def body_literals(b):
     return lits
 
 
+class _Unsupported(Exception):
+    pass
+
+
+def _eval_pred(b, value):
+    """Evaluate a pure integer predicate body (`fn(&self) -> bool` over u8 / char: comparisons, range tests, `matches!`, boolean
+    connectives; no calls) on one concrete value of `*self`.  This is constant folding over a finite domain, not a run of a parser:
+    the accepted set of such a predicate is decided exactly by evaluating it on every value of u8, or on the break points of char."""
+    env = {1: ("ref", value)}
+
+    def const(k):
+        v = k.get("val", "")
+        l = parse_lit(v)
+        if l:
+            return l[1]
+        if v in ("true", "false"):
+            return v == "true"
+        m = re.match(r"^(-?\d+)_", v)
+        if m:
+            return int(m.group(1))
+        raise _Unsupported("const %s" % v)
+
+    def place(pl):
+        if pl["l"] not in env:
+            raise _Unsupported("uninitialised local")
+        v = env[pl["l"]]
+        for e in pl["p"]:
+            if e == "*":
+                if isinstance(v, tuple) and v[0] == "ref":
+                    v = v[1]
+                else:
+                    raise _Unsupported("deref")
+            else:
+                raise _Unsupported("projection")
+        return v
+
+    def operand(o):
+        if "k" in o:
+            if o["k"].get("promoted") is not None:
+                raise _Unsupported("promoted")
+            return const(o["k"])
+        return place(o.get("c") or o.get("m"))
+    OPS = {"Eq": lambda a, c: a == c, "Ne": lambda a, c: a != c, "Lt": lambda a, c: a < c, "Le": lambda a, c: a <= c,
+           "Gt": lambda a, c: a > c, "Ge": lambda a, c: a >= c, "BitAnd": lambda a, c: a & c, "BitOr": lambda a, c: a | c,
+           "BitXor": lambda a, c: a ^ c, "Sub": lambda a, c: a - c, "Add": lambda a, c: a + c}
+    bb = 0
+    for _ in range(400):
+        bl = b["blocks"][bb]
+        for st in bl["stmts"]:
+            if st["k"] != "assign":
+                continue
+            rv = st["rv"]
+            if st["place"]["p"]:
+                raise _Unsupported("projected write")
+            k = rv["k"]
+            if k == "use":
+                v = operand(rv["op"])
+            elif k in ("ref", "rawptr"):
+                v = ("ref", place(rv["place"]))
+            elif k == "copyderef":
+                v = place(rv["place"])
+            elif k == "bin":
+                op = rv["op"].replace("WithOverflow", "").replace("Unchecked", "")
+                if op not in OPS:
+                    raise _Unsupported(op)
+                v = OPS[op](operand(rv["a"]), operand(rv["b"]))
+            elif k == "un" and rv["op"] == "Not":
+                x = operand(rv["a"])
+                v = (not x) if isinstance(x, bool) else ~x
+            elif k == "cast":
+                v = operand(rv["op"])
+            else:
+                raise _Unsupported(k)
+            env[st["place"]["l"]] = v
+        t = bl["term"]
+        if t["k"] == "ret":
+            return bool(env.get(0))
+        if t["k"] == "goto":
+            bb = t["t"]
+        elif t["k"] == "switch":
+            v = operand(t["op"])
+            v = int(v) if not isinstance(v, tuple) else None
+            nxt = None
+            for val, tgt in t["targets"]:
+                if int(val) == v:
+                    nxt = tgt
+            bb = nxt if nxt is not None else t["otherwise"]
+        elif t["k"] == "assert":
+            bb = t["t"]
+        else:
+            raise _Unsupported(t["k"])
+    raise _Unsupported("no return")
+
+
+def _accepted_set(b, kind, probe):
+    """The values of the domain accepted by predicate body `b`: all of u8, or - for char - the break points (every constant of the body
+    and its neighbours) plus `probe`; None if the body is not a pure comparison predicate (then the literal table is used)."""
+    try:
+        if kind == "u8":
+            return {chr(v) for v in range(256) if _eval_pred(b, v)}
+        pts = {0, 0x10FFFF} | {ord(c) for c in probe}
+        for k, v in body_literals(b):
+            if k in ("char", "u8") and isinstance(v, int):
+                pts |= {v - 1, v, v + 1}
+        pts = {p for p in pts if 0 <= p <= 0x10FFFF and not (0xD800 <= p <= 0xDFFF)}
+        return {chr(v) for v in pts if _eval_pred(b, v)}
+    except (_Unsupported, KeyError, TypeError, ValueError):
+        return None
+
+
 def rule_char_sib(facts):
     r = RuleResult("CHAR-SIB")
     impls = {}
@@ -113,6 +226,10 @@ def rule_char_sib(facts):
         b = kinds[kind].get(meth)
         if b is None:
             return None, None
+        if kind in ("u8", "char") and meth in ("is_newline", "is_inline_whitespace"):
+            acc = _accepted_set(b, kind, DOC_NEWLINES | {" ", "\t"})
+            if acc is not None:
+                return acc, b
         lits = body_literals(b)
         vals = set()
         for k, v in lits:
@@ -179,7 +296,7 @@ def rule_char_sib(facts):
                 r.errors.append("u8::%s not found" % meth)
                 continue
             pv = Prov(b)
-            cs = [(t, f) for _, _, t, f in calls(b) if f is not None]
+            cs = [(t, f) for _, _, t, f in calls(b) if f is not None and not (f["name"] in ("from", "into") and f.get("krate") != "chumsky")]
             ok = len(cs) == 1 and cs[0][1]["name"] == target and ("char" in cs[0][1].get("self_ty", "char") or "char" in callee_path(cs[0][1]))
             if ok:
                 a0 = pv.of_operand(cs[0][0]["args"][0]["op"])
